@@ -6,10 +6,12 @@ Protocol (one observation per line; identical lines go to the Lean driver Operon
        of core/agent.py are kept (wrapped by a recorder) instead of being replaced by stubs)
   run <pid|u<pid>> <zVerdict|exc..> <yVerdict|exc..>                    -> <result> ; <stats>
       agent exceptions: exc = RuntimeError("stub agent failure"); excK = KeyError() (no arguments); excR = an Exception
-      whose __repr__ raises (str() works); excS = an Exception whose __str__ raises ("unprintable": run() raises the
-      rendering error, ValueError); excB = a BaseException that is not an Exception (run() does not catch it: AgentAbort)
-      u:<VERDICT> = the agent answers VERDICT with a payload whose __str__ raises (ActionProtein.payload is `Any`): when the
-      gate renders that payload (approval reason, block reason) _apply_gate_logic raises ValueError outside run()'s handler
+      whose __repr__ raises (str() works); excS = an Exception whose __str__ raises ("unprintable": the handler of run()
+      renders it with a placeholder - before the fix: commit run() raised the rendering error, ValueError); excB = a
+      BaseException that is not an Exception (run() does not catch it: AgentAbort)
+      u:<VERDICT> = the agent answers VERDICT with a payload whose __str__ raises (ActionProtein.payload is `Any`): the
+      gate / the console output render it with a placeholder (before the fix: commit _apply_gate_logic raised ValueError
+      outside run()'s handler, and _print_result at the very end of run())
   adv <us> | resetcb | clearcache                                       -> - ; <stats>
   set gate|cache|ttl|breaker|thr|tmo <value> | set agents 0             -> - ; <stats>
       a public attribute of the LIVE loop is re-assigned (gate_logic, enable_cache, cache_ttl, enable_circuit_breaker,
